@@ -74,12 +74,25 @@ theorem paramRepr_ignored (pr : Char → Bool) (p : Param) (h : p.ignore = true)
   simp [paramRepr, h]
 
 /-- a parameter equal to its default, declared `dont_persist_default_value`, takes no part -/
-theorem paramRepr_default (pr : Char → Bool) (p : Param) (d : PVal) (hd : p.default = some d)
+theorem paramRepr_default (pr : Char → Bool) (p : Param) (d : PVal) (hd : p.default = some d) (hp : p.isPath = false)
     (hdpd : p.dpd = true) (heq : pyEq p.value d = true) : paramRepr pr p = none := by
   unfold paramRepr
   split
   · rfl
-  · simp [hdpd, isDefaultVal, hd, heq]
+  · simp [hdpd, isDefaultVal, hd, heq, hp]
+
+/-- the same for a `Path`-typed parameter whose default is a `Path` object: the string that spells the default out, in the
+config or in a context, takes no part either (`Path(value) == default`) — while it would against a `str` default -/
+theorem paramRepr_default_path (pr : Char → Bool) (p : Param) (s : Str) (hp : p.isPath = true)
+    (hv : p.value = .str s) (hd : p.default = some (.obj (pathRepr pr s))) (hdpd : p.dpd = true) : paramRepr pr p = none := by
+  unfold paramRepr
+  split
+  · rfl
+  · simp [hdpd, isDefaultVal, hd, hp, hv]
+
+theorem paramRepr_str_default_of_path_persisted (pr : Char → Bool) (p : Param) (s d : Str) (hp : p.isPath = true)
+    (hv : p.value = .str s) (hd : p.default = some (.str d)) (hi : p.ignore = false) : (paramRepr pr p).isSome = true := by
+  simp [paramRepr, isDefaultVal, hd, hp, hv, hi]
 
 /-- adding a parameter that takes no part leaves the registry text unchanged, wherever it is declared -/
 theorem registryRepr_add_unpersisted (pr : Char → Bool) (p : Param) (ps : List Param)
